@@ -49,7 +49,7 @@ func main() {
 		pprof.Do(context.Background(), pprof.Labels("vcase", label), func(ctx context.Context) {
 			v = p.Run(c, &fw.Env{Tier: *tier, Seed: *seed, Label: label})
 		})
-		fmt.Printf("case %d %s:%s -> %s\n", c.Idx, c.Kind, d.Name, v.Status)
+		fmt.Printf("case %d %s:%s -> %s %v\n", c.Idx, c.Kind, d.Name, v.Status, v.Stats)
 		for _, f := range v.Findings {
 			fmt.Printf("   %s %s|%s: %s\n", f.Status, f.Rule, f.Class, trunc(f.Msg, 400))
 		}
